@@ -268,7 +268,7 @@ pub fn c08(ctx: &Ctx) -> (CheckMeta, Outcome) {
     let meta = CheckMeta {
         property: "C08".into(),
         level: "model_checking".into(),
-        rule: "the reader x writer product is cut along the copy step. Source view: BFS to the FIXPOINT of the real reader (Buf8..Buf64, unbuffered; zero-extended, strict, Cursor backends; Count wrapper) whose alphabet contains, besides boundary reads/peeks/skips, all table and table-free code reads and seeks, copy_to/copy_from of n bits (0..=W+2 (thorough 0..=3W+2), 2W-1..2W+1, 3W+2, 5W+7, 8W, 200) into a fresh writer of every word size 8..128 pre-filled with several bit counts; the destination's whole image (prefill ++ copied bits ++ sentinel) is compared with the model and the source continues as an ordinary BFS state, so EVERY continuation of EVERY post-copy state is explored. Destination view: BFS (depth 3) over the real writer: fill level, copy-in from a fresh source reader of every kind advanced by k bits and optionally peeked (more than one word buffered), continuation writes; delivered words and final images on real backends vs the model. Long-copy grid: single copies of B words + r bits (B in 127,128,129,256,1024 (thorough: 15 values from 63 to 1025), word = source or destination word, r in 0,1,5,21,W-1) from every source kind into every destination word size, 3 destination fills, 2 source offsets, both directions, with the source's position and next bits checked. All three are run on the build with the optimised copy paths and on the build with --features no_copy_impls".into(),
+        rule: "the reader x writer product is cut along the copy step. Source view: BFS to the FIXPOINT of the real reader (Buf8..Buf64, unbuffered; zero-extended, strict, Cursor backends; Count wrapper) whose alphabet contains, besides boundary reads/peeks/skips, all table and table-free code reads and seeks, copy_to/copy_from of n bits (quick: 0,1,2,W/2,W-1,W,W+1; thorough: every n in 0..=2W+2; both plus 2W-1..2W+1, 3W+2, 5W+7, 8W, 200) into a fresh writer of every word size 8..128 pre-filled with 2 (thorough 6) bit counts; the destination's whole image (prefill ++ copied bits ++ sentinel) is compared with the model and the source continues as an ordinary BFS state, so EVERY continuation of EVERY post-copy state is explored. Destination view: BFS (depth 3) over the real writer: fill level, copy-in from a fresh source reader of every kind advanced by k bits and optionally peeked (more than one word buffered), continuation writes; delivered words and final images on real backends vs the model. Long-copy grid: single copies of B words + r bits (B in 127,128,129,256,1024 (thorough: 15 values from 63 to 1025), word = source or destination word, r in 0,1,5,21,W-1) from every source kind into every destination word size, 3 destination fills, 2 source offsets, both directions, with the source's position and next bits checked. All three are run on the build with the optimised copy paths and on the build with --features no_copy_impls".into(),
         assumptions: vec!["reference model = canonical layout".into()],
     };
     (meta, out)
